@@ -160,6 +160,88 @@ impl C12 {
     }
 }
 
+impl C12 {
+    fn run_write_buffer(&self, src: &mut Src, ctx: &RunCtx, plan: BTreeMap<u64, StoreFault>) -> RunReport {
+        use redis_sim::streaming::{SegmentReader, WriteBuffer};
+        let mut rep = RunReport::default();
+        rep.probe("write_buffer_workload");
+        let raw = src.list(14, 7, 8, |s| s.weighted(&[5, 3]));
+        let mut ops: Vec<Op> = Vec::new();
+        let mut next = 0u64;
+        for r in raw { if r == 0 { ops.push(Op::Push(next)); next += 1; } else { ops.push(Op::Flush); } }
+        ops.push(Op::Flush);
+        let trace = ctx.trace;
+        rep.log(trace, || format!("write buffer ops: {:?} faults: {:?}", ops, plan));
+        let store = SimStore::new();
+        store.set_record(false);
+        // only put faults mean anything here (the buffer makes no other store call)
+        // (every flush of a non-empty buffer is one put: the planned positions are folded onto the flushes of this workload)
+        let nflush = ops.iter().filter(|o| matches!(o, Op::Flush)).count().max(1) as u64;
+        let plan: BTreeMap<u64, StoreFault> = plan.into_iter().filter(|(_, f)| matches!(f, StoreFault::PutError | StoreFault::PutTorn(_) | StoreFault::PutAmbiguous)).map(|(k, f)| (k % nflush, f)).collect();
+        store.set_plan(plan.clone());
+        let seed = src.u64_any();
+        let st = store.clone();
+        let ops2 = ops.clone();
+        let (viol, log, evals, failed_flushes): (Option<(String, String)>, Vec<String>, u64, u64) = rt::block_on(seed, async move {
+            let cfg = WriteBufferConfig { flush_interval: Duration::from_secs(3600), max_size_bytes: 1 << 20, max_deltas: 1000, backpressure_threshold_bytes: 1 << 22, compression_enabled: false };
+            let wb = WriteBuffer::new(Arc::new(st.clone()), "wb".to_string(), cfg);
+            let mut accepted: Vec<u64> = Vec::new();
+            let mut log = Vec::new();
+            let mut evals = 0u64;
+            let mut failed = 0u64;
+            // ids of the updates found in intact segment objects
+            async fn stored(st: &SimStore) -> std::collections::BTreeSet<String> {
+                let mut out = std::collections::BTreeSet::new();
+                for (k, bytes) in st.objects() {
+                    if !k.starts_with("wb/") { continue; }
+                    let Ok(r) = SegmentReader::open(&bytes) else { continue };
+                    if r.validate().is_err() { continue; }
+                    if let Ok(it) = r.deltas() { for d in it.flatten() { out.insert(d.key.clone()); } }
+                }
+                out
+            }
+            for op in &ops2 {
+                match op {
+                    Op::Push(id) => { if wb.push(upd(*id)).is_ok() { accepted.push(*id); } }
+                    _ => {
+                        let r = wb.flush().await;
+                        if trace { log.push(format!("flush -> {:?}, pending_count() = {}", r.as_ref().map_err(|e| e.to_string()), wb.pending_count())); }
+                        if r.is_err() { failed += 1; }
+                        evals += 1;
+                        let have = stored(&st).await;
+                        let missing: Vec<u64> = accepted.iter().copied().filter(|id| !have.contains(&upd(*id).key)).collect();
+                        if wb.pending_count() < missing.len() {
+                            return (Some(("C12/write-buffer/failed-flush-discards-buffer".to_string(), format!("after a flush that returned {:?}: updates {:?} were accepted by push() and are in no intact segment object, but pending_count() = {} - they are gone while the process keeps running", r.as_ref().map_err(|e| e.to_string()), missing, wb.pending_count()))), log, evals, failed);
+                        }
+                        if r.is_ok() && !missing.is_empty() {
+                            return (Some(("C12/write-buffer/confirmed-flush-not-stored".to_string(), format!("flush returned Ok but updates {:?} are in no intact segment object", missing))), log, evals, failed);
+                        }
+                    }
+                }
+            }
+            // the store is healthy again: one more flush has to bring everything home
+            st.set_plan(BTreeMap::new());
+            let r = wb.flush().await;
+            evals += 1;
+            let have = stored(&st).await;
+            let missing: Vec<u64> = accepted.iter().copied().filter(|id| !have.contains(&upd(*id).key)).collect();
+            if !missing.is_empty() {
+                return (Some(("C12/write-buffer/accepted-update-never-stored".to_string(), format!("the store is healthy again and a final flush returned {:?}, but updates {:?} accepted by push() are in no intact segment object", r.as_ref().map_err(|e| e.to_string()), missing))), log, evals, failed);
+            }
+            (None, log, evals, failed)
+        });
+        for l in log { rep.trace.push(l); }
+        for (_, f) in store.inner.lock().unwrap().fired.iter() { rep.fault(f.name()); }
+        if failed_flushes > 0 { rep.probe("write_buffer_flush_failed"); }
+        if let Some((k, m)) = viol { rep.violate(k, m); }
+        rep.evals = evals.max(1);
+        rep.nontrivial = failed_flushes > 0;
+        rep.fingerprint = fnv(0xb0f, format!("{:?}{:?}", ops, plan).as_bytes());
+        rep.sample = Some(json!({"mode": "WriteBuffer", "ops": format!("{:?}", ops), "faults": format!("{:?}", plan)}));
+        rep
+    }
+}
+
 impl Property for C12 {
     fn id(&self) -> &'static str { "C12" }
     fn level(&self) -> &'static str { "fault_enumeration" }
@@ -218,6 +300,9 @@ impl Property for C12 {
         // every sixth workload goes through the server's own pipeline instead of direct calls: delta sink ->
         // bridge task -> persistence actor (count-, tick- and shutdown-triggered flushes), then a graceful shutdown
         if src.below(6) == 0 { return self.run_workers(src, ctx, plan); }
+        // one workload in ten is on the library's other buffer, WriteBuffer (push / flush straight to segment objects,
+        // no manifest): an update it accepted must stay in the buffer or be in an intact object, whatever a flush met
+        if src.below(10) == 0 { return self.run_write_buffer(src, ctx, plan); }
         let mut next = 0u64;
         let mut ops: Vec<Op> = Vec::new();
         let raw = src.list(14, 7, 8, |s| s.weighted(&[5, 3, 2]));
